@@ -78,6 +78,15 @@ def crystal_library():
         h = crystal.Crystal.HCP(1.0)
         return h.addbasis(h.Wyckoffpos(a([0., 0., 0.5])) + h.Wyckoffpos(a([1. / 3., 2. / 3., 0.625])))
     L['hcpot'] = _hcpot
+    # two mobile sites far apart in cell coordinates (0.1 / 0.9): jumps shorter than the cutoff need lattice translations |n| = 2
+    L['dimer-chain'] = lambda: _c(np.diag([1., 1.5, 1.9]), [[a([0.1, 0., 0.]), a([0.9, 0., 0.])], [a([0.5, 0.4, 0.3])]], noreduce=True)
+    L['oblique-far2'] = lambda: _c(a([[1., 0.3], [0., 1.4]]), [[a([0.05, 0.1]), a([0.95, 0.85])], [a([0.5, 0.45])]], noreduce=True)
+    # two (three) species with ONE site each, the later ones at positions not invariant under the lattice point group
+    L['ortho-ab-general'] = lambda: _c(np.diag([1., 1.25, 1.5]), [[a([0., 0., 0.])], [a([0.13, 0.21, 0.34])]], noreduce=True)
+    L['tetra-polar-abx2'] = lambda: _c(np.diag([1., 1., 1.25]), [[a([0., 0., 0.])], [a([0.5, 0.5, 0.55])], [a([0.5, 0., 0.5]), a([0., 0.5, 0.5])]],
+                                       noreduce=True)
+    L['rect-ab-general'] = lambda: _c(a([[1., 0.], [0., 1.25]]), [[a([0., 0.])], [a([0.2, 0.35])]], noreduce=True)
+    L['ortho-abc-mirror'] = lambda: _c(np.diag([1., 1.25, 1.5]), [[a([0., 0., 0.])], [a([0.5, 0.5, 0.3])], [a([0.25, 0., 0.])]], noreduce=True)
     L['fcc-nosym'] = lambda: _c(0.5 * a([[0., 1., 1.], [1., 0., 1.], [1., 1., 0.]]), [a([0., 0., 0.])], NOSYM=True)
     L['hcp-nosym'] = lambda: _c(a([[0.5, 0.5, 0.], [-np.sqrt(0.75), np.sqrt(0.75), 0.], [0., 0., np.sqrt(8. / 3.)]]),
                                 [a([1. / 3, 2. / 3, 0.25]), a([2. / 3, 1. / 3, 0.75])], NOSYM=True)
